@@ -104,7 +104,7 @@ FAMILIES = {
     "C24": ["mcast"],
     "C22": ["replay", "schedobs"],
     "C32": ["schedobs"],
-    "C40": ["op", "resrc"],
+    "C40": ["op", "resrc", "subscribe", "class"],
     "C08": ["opacity", "op", "class", "replay"],
     "C05": ["op"],
     "C06": ["op"],
